@@ -129,6 +129,8 @@ type recSink struct {
 	failSync   int
 	nw, ns     int
 	shortWrite bool
+	short      int    // bytes the failing write accepts before it reports its error
+	stream     []byte // every byte the sink accepted, in order: what an audit file would hold
 }
 
 var errSink = errors.New("audit sink failure (injected)")
@@ -139,9 +141,12 @@ func (s *recSink) Write(p []byte) (int, error) {
 	s.nw++
 	if s.nw == s.failWrite {
 		*s.ev = append(*s.ev, event{kind: "audit-write-failed"})
-		return 0, errSink
+		n := min(s.short, len(p))
+		s.stream = append(s.stream, p[:n]...)
+		return n, errSink
 	}
 	*s.ev = append(*s.ev, event{kind: "audit-write", data: append([]byte(nil), p...)})
+	s.stream = append(s.stream, p...)
 	return len(p), nil
 }
 
@@ -225,6 +230,44 @@ func parseLine(b []byte) (*entry, error) {
 		return nil, fmt.Errorf("record lacks action/authorized/time: %q", b)
 	}
 	return &e, nil
+}
+
+// runPair: the sink accepts only part of the first request's record and reports an error (a full
+// disk), then works again; a second request follows. The first must fail closed. The second may
+// fail closed too; if it is served or takes effect, the audit log - the bytes the sink accepted, in
+// order - must hold one complete line of its own for it.
+func runPair(dir string, file []byte, ck callerKind, o1, o2 Op, short int) (string, string) {
+	p := filepath.Join(dir, "db")
+	os.Remove(p)
+	os.WriteFile(p, file, 0o600)
+	var ev []event
+	var mu sync.Mutex
+	sk := &recSink{ev: &ev, mu: &mu, failWrite: 1, short: short}
+	d, err := db.Open(p, kek, audit.New(sk))
+	if err != nil {
+		panic(err)
+	}
+	caller := db.Caller{Principal: principal(ck.name), Permissions: ck.rules}
+	before := hx.DumpKey(d)
+	r1 := apply(d, caller, o1)
+	if sk.nw >= 1 && (r1.class == model.OK || r1.hasValue || hx.DumpKey(d) != before) {
+		return "fail-open", fmt.Sprintf("the sink accepted %d bytes of the record and reported an error, but %v returned %v (value=%v)", short, o1, r1.class, r1.hasValue)
+	}
+	before = hx.DumpKey(d)
+	nw := sk.nw
+	r2 := apply(d, caller, o2)
+	after := hx.DumpKey(d)
+	served := r2.hasValue || after != before
+	denied := r2.class == model.Denied
+	if !served && !denied {
+		return "", "" // failed closed, or an outcome that needs no record
+	}
+	for _, line := range bytes.SplitAfter(sk.stream, []byte("\n")) {
+		if e, err := parseLine(line); err == nil && e.Action == string(o2.action()) && e.Secret == o2.Name {
+			return "", ""
+		}
+	}
+	return "record-lost-after-torn-write", fmt.Sprintf("after a torn record (%d bytes accepted, then an error) %v was answered %v (value=%v, state changed=%v, %d further sink writes), but the audit log holds no complete line for it: %q", short, o2, r2.class, r2.hasValue, after != before, sk.nw-nw, sk.stream)
 }
 
 // runOne executes one probe in a state and judges the event log.
@@ -462,7 +505,7 @@ func TestCheck(t *testing.T) {
 	}
 	sort.Strings(keys)
 	sec := rep.Add(&report.Section{Name: fmt.Sprintf("sequential-all-states-depth%d", depth), Engine: "seqx", Exhaustive: true, Extra: map[string]int64{},
-		Rule: "every database state reachable within the depth × caller {authorised, unauthorised, partially authorised} × 23 operation instances, at the db.DB API and through the HTTP handlers (WhoIs granting exactly the caller's rules), with a recording sink; then the same with the sink failing at the record's write or at its sync; one event log orders sink writes, sink syncs, file-system effects and the return; non-trivial = probes that must produce exactly one record"})
+		Rule: "every database state reachable within the depth × caller {authorised, unauthorised, partially authorised} × 23 operation instances, at the db.DB API and through the HTTP handlers (WhoIs granting exactly the caller's rules), with a recording sink; then the same with the sink failing at the record's write or at its sync, and with a sink that accepts part of one record, reports an error, recovers, and is followed by a second request; one event log orders sink writes, sink syncs, file-system effects and the return; non-trivial = probes that must produce exactly one record"})
 	{
 		// states are partitioned over the worker processes; within a process they run one at a time
 		// (the file-system hook is process-global)
@@ -480,6 +523,16 @@ func TestCheck(t *testing.T) {
 					}
 					sec.Evaluations++
 					sec.Extra["http_probes"]++
+					if ck.name == callers[0].name {
+						for _, short := range []int{1, 40} {
+							kind, msg := runPair(dir, sts[k], ck, Op{Kind: "get", Name: "a"}, o, short)
+							sec.Evaluations++
+							sec.Extra["torn_record_then_next_request"]++
+							if kind != "" {
+								rep.Violate(sec.Name, fmt.Sprintf("audit/%s: caller=%s op=%v short=%d", kind, ck.name, o, short), fmt.Sprintf("state %s caller %s: %s", k, ck.name, msg), map[string]any{"state": k, "caller": ck.name, "op": o, "short": short})
+							}
+						}
+					}
 					for _, fm := range [][2]int{{0, 0}, {1, 0}, {0, 1}} {
 						kind, msg := runOne(dir, sts[k], ck, o, fm[0], fm[1], false)
 						sec.Evaluations++
